@@ -271,7 +271,7 @@ static int apply(const sym *s)
 		if (FIELD(c, A->o_total, uint64_t) != mc->bytes) { viol("C15", "total_length", "context c%d reports total_length %llu, sum of segments is %llu", ri, (unsigned long long)FIELD(c, A->o_total, uint64_t), (unsigned long long)mc->bytes); return 1; }
 		if (mc->last) {
 			vk_stat("digests_checked", 1);
-			if (!digest_matches(c, mc->dig)) { viol("C01", "digest", "context c%d completed with a digest different from the standard hash of its %llu bytes (%d segments)", ri, (unsigned long long)mc->bytes, mc->nseg); return 1; }
+			if (!digest_matches(c, mc->dig)) { viol(!strcmp(mode, "len") ? "C15" : "C01", "digest", "context c%d completed with a digest different from the standard hash of its %llu bytes (%d segments)", ri, (unsigned long long)mc->bytes, mc->nseg); return 1; }
 			mc->st = M_COMPLETE;
 		} else mc->st = M_IDLE;
 		M.ninflight--;
